@@ -39,6 +39,7 @@ FLOORS = {
     "thorough": {"generate_checks": 2500, "weight_checks": 2500, "event_matches": 2000, "unbiased_instances": 80, "subset_none": 600, "subset_all": 300},
 }
 TIMEOUT_S = {"quick": 1500, "thorough": 5400}
+CLEAR_CACHES_EVERY = {"quick": 0, "thorough": 6}  # see lib/worker.py
 N_CASES = {"quick": 72, "thorough": 700}
 FAMILY_CYCLE = ["mixed", "probe", "discrete", "builtin", "bare", "bare-discrete"]
 
